@@ -30,6 +30,7 @@ def generate(seed, tier="quick"):
             op["lib"] = nan_lib
         op.update(p)
         op["kw"] = sampling.gen_iterative_kw(rnd, N, pname, logprobs=0.0)
+        sampling.add_arg_types(rnd, op)
         ops.append(op)
     return {"format": 1, "property": PROPERTY, "seed": seed, "config": cfg, "ops": ops, "schedule": None, "faults": []}
 
